@@ -136,7 +136,13 @@ impl Link {
         }
         let mut deliveries = vec![self.latency(rng)];
         if self.dup_p > 0.0 && rng.gen_bool(self.dup_p) {
-            deliveries.push(self.latency(rng));
+            // Half of the duplicates arrive back to back (same instant as the original: the usual
+            // form of UDP duplication), the others after an independent latency.
+            if rng.gen_bool(0.5) {
+                deliveries.push(deliveries[0]);
+            } else {
+                deliveries.push(self.latency(rng));
+            }
         }
         Fate {
             fail: false,
